@@ -156,6 +156,15 @@ def decode_map_kinds(prog, md):
             ok, det = _countersig(prog, md, effs)
             if ok:
                 kind, presence = "single-or-array<sign::CoseSignature>", "nonempty?"
+        if kind == "?" and len(effs) == 1 and effs[0][1]["kind"] == "assign":
+            from lib.seq import Seq, X, normalize
+            e0 = effs[0][1]
+            s = normalize(Seq(fn, md.pv).of_value(e0["value"], 0, (e0["bb"], e0["idx"])))
+            if s[0] == "map" and s[2][0] == "elems" and s[2][2] == 0 and s[2][3] is None \
+                    and md.sym(s[2][1]) == ("field", ("variant", V, "Array"), "0") \
+                    and s[1][0] == "tryok" and is_call(s[1][1]) and s[1][1][2] == (X,) and s[1][1][1].endswith("::from_cbor_value"):
+                kind = "array<%s>" % codec.type_of_decoder(full_of(fn, s[1][1]))
+                presence = "nonempty?"
         if kind == "?" and effs and all(e["kind"] == "call" for _, e in effs):
             # any other way of filling a list field from the entry's array (extend with a helper's result, collect, ..):
             # decided on the sequence the arm contributes
